@@ -209,7 +209,7 @@ def disconnect_both(ctx):
     n = 0
     for br in [x for x in walk_local(fn) if isinstance(x, ast.If) and norm(x.test).startswith('self.link')]:
         n += 1
-        calls = [dotted(c.func) or '' for s in br.body for c in calls_in(s)]
+        calls = [dotted(c.func) or '' for s in br.body for c in calls_in(s, include_lambda=True)]
         tells = any(c.endswith('send_lmp_packet') or c.endswith('send_ll_control_pdu') for c in calls)
         local = any(c in ('self.on_classic_disconnected', 'self.on_le_disconnected', 'self.on_classic_sco_disconnected', 'self.on_le_cis_disconnected') for c in calls)
         R.check(tells and local, rule, f'{CTRL}.on_hci_disconnect_command | branch@{n}', 'peer is told (LMP detach / LL terminate) and the local completion is emitted', f'a disconnect branch does not both tell the peer and complete locally (calls: {calls})', p.loc(br))
